@@ -22,7 +22,7 @@ def if_then_else(cond, truev, falsev):
         raise RuntimeError("Wrong type for if_then_else condition")
 
     if callable(truev): truev = guarded(cond)(truev)()
-    if callable(falsev): falsev = guarded(-cond)(falsev)()        
+    if callable(falsev): falsev = guarded(~cond)(falsev)()        
 
     if isinstance(truev, list):
         return [if_then_else(cond, truevi, falsevi) for (truevi,falsevi) in zip(truev,falsev)]
